@@ -440,9 +440,8 @@ def discharge(ob, rlimit=0, timeout_ms=3000, use_cvc5=True, long_ms=30000):
     t0 = time.time()
     model = None
     ob.verdict = "unknown"
-    for budget, seed in ((timeout_ms, 0), (long_ms, 1)):
-        if budget <= 1:
-            continue
+    def z3_try(budget, seed):
+        nonlocal model
         s = z3.Solver()
         s.set("timeout", budget)
         s.set("random_seed", seed)
@@ -452,11 +451,12 @@ def discharge(ob, rlimit=0, timeout_ms=3000, use_cvc5=True, long_ms=30000):
         ob.backend = "z3-" + z3.get_version_string()
         if r == z3.unsat:
             ob.verdict = "proved"
-            break
-        if r == z3.sat:
+        elif r == z3.sat:
             ob.verdict = "failed"
             model = s.model()
-            break
+
+    z3_try(timeout_ms, 0)
+    bi = None
     if ob.verdict == "unknown":
         try:
             br, bm, info = bounded_check(ob.hyps, ob.goal)
@@ -466,10 +466,18 @@ def discharge(ob, rlimit=0, timeout_ms=3000, use_cvc5=True, long_ms=30000):
             ob.verdict = "proved"
             ob.backend = "z3-%s+bounded-instantiation(%s)" % (z3.get_version_string(), info.get("qf_backend"))
         elif br == "sat":
-            ob.verdict = "failed"
-            ob.backend = "bounded-instantiation(%s) candidate counter-model; full formula undecided by z3 in %d ms" % (
-                info.get("qf_backend"), timeout_ms + long_ms)
-            model = bm
+            bi = (bm, info)
+    if ob.verdict == "unknown" and long_ms > 1:
+        # a candidate counter-model from bounded instantiation is only reported after the full formula has
+        # resisted several more attempts (different seeds, one long run)
+        for budget, seed in ((timeout_ms, 7), (timeout_ms * 2, 13), (long_ms, 1)):
+            z3_try(budget, seed)
+            if ob.verdict != "unknown":
+                break
+    if ob.verdict == "unknown" and bi is not None:
+        ob.verdict = "failed"
+        ob.backend = "bounded-instantiation(%s) candidate counter-model; full formula undecided by z3" % bi[1].get("qf_backend")
+        model = bi[0]
     if ob.verdict == "unknown" and use_cvc5:
         c = run_cvc5(to_smt2(ob.hyps, ob.goal), 20)
         if c == "unsat":
